@@ -6,6 +6,8 @@ DOC = {
     'not_decided': ['that every offset/length lies within the current length', 'that a read-only open issues no write (value conditions on file contents)'],
 }
 
+WITNESSES = ['C20W1Fail', 'C20W2Fail', 'C20W1Twin']
+
 
 def rules(ctx):
     S.c08_r1_one_door(ctx)
